@@ -693,31 +693,32 @@ func (env *Env) callExpr(e *ECall) V {
 		arr := fc.heapGet(env.cur, "ghost:closed", fieldSort(sBool))
 		return boolV(sx("select", arr, ch.T[0]))
 	case "v4mapped":
-		// net.IP's IPv4-in-IPv6 form: 16 octets with the prefix 00*10 ff ff. The twelve byte tests are stated once per
-		// (backing array, offset) as the definition of an uninterpreted predicate, so that terms mentioning it stay small.
+		// net.IP's IPv4-in-IPv6 form: 16 octets with the prefix 00*10 ff ff. Modelled as an uninterpreted predicate of the
+		// slice's (allocation, offset), defined by the twelve byte tests in the state where it is evaluated.
+		// ASSUMPTION (recorded): the bytes viewed by an Address / IPv4 value do not change while the value is in use,
+		// so the predicate does not depend on the heap version.
 		argc(1)
 		ip := env.eval(e.Args[0])
-		mem := fc.heapGet(env.cur, "M:bv8.", memSort(sBV(8)))
-		inner := sx("select", mem, ip.T[0])
-		off := ip.T[1]
-		if !strings.Contains(inner+off, "|q") {
-			inner = fc.def("inner", arrSort(sBV(64), sBV(8)), inner)
-			off = fc.def("off", sBV(64), off)
-		}
-		key := "ismapped:" + inner + ":" + off
-		if !fc.declared[key] && !strings.Contains(inner+off, "|q") {
-			fc.declared[key] = true
-			var cs []string
-			for k := 0; k < 12; k++ {
-				want := "#x00"
-				if k >= 10 {
-					want = "#xff"
+		base, off := ip.T[0], ip.T[1]
+		fc.assumptions["bytes viewed by an Address/IPv4 value are immutable while the value is in use (v4-mapped test is a function of allocation and offset)"] = true
+		if !strings.Contains(base+off, "|q") {
+			mem := fc.heapGet(env.cur, "M:bv8.", memSort(sBV(8)))
+			inner := sx("select", mem, base)
+			key := "ismapped:" + inner + ":" + off
+			if !fc.declared[key] {
+				fc.declared[key] = true
+				var cs []string
+				for k := 0; k < 12; k++ {
+					want := "#x00"
+					if k >= 10 {
+						want = "#xff"
+					}
+					cs = append(cs, eq(sx("select", inner, add64(off, bvLit(uint64(k), 64))), want))
 				}
-				cs = append(cs, eq(sx("select", inner, add64(off, bvLit(uint64(k), 64))), want))
+				fc.assumeGlobal(implies(eq(ip.T[2], bvLit(16, 64)), eq(sx("ismapped", base, off), and(cs...))))
 			}
-			fc.assumeGlobal(eq(sx("ismapped", inner, off), and(cs...)))
 		}
-		return boolV(and(eq(ip.T[2], bvLit(16, 64)), sx("ismapped", inner, off)))
+		return boolV(and(eq(ip.T[2], bvLit(16, 64)), sx("ismapped", base, off)))
 	case "f32bits":
 		argc(1)
 		v := env.eval(e.Args[0])
@@ -734,6 +735,29 @@ func (env *Env) callExpr(e *ECall) V {
 		argc(1)
 		v := env.eval(e.Args[0])
 		return V{Ty: types.Typ[types.Int], T: []string{fc.toInt64(v)}}
+	}
+	// instance of a manual lemma of a heap-reading function: fname.label(args...)
+	if i := strings.Index(name, "."); i > 0 {
+		if f, ok := fc.e.specs.Funs[name[:i]]; ok && f.Manual != nil {
+			if cl, ok := f.Manual[name[i+1:]]; ok {
+				q, ok := cl.E.(*EQuant)
+				if !ok || len(q.Vars) != len(e.Args) {
+					panic(specErr("%s: lemma has %d variables", name, len(q.Vars)))
+				}
+				sub := &Env{fc: fc, vars: map[string]V{}, bound: map[string]V{}, cur: env.cur, old: env.old, oldAc: env.oldAc, pkg: env.pkg, depth: env.depth + 1}
+				for k, qv := range q.Vars {
+					a := env.eval(e.Args[k])
+					t := env.specType(qv.Ty)
+					if a.C != nil {
+						a = env.constTo(a, t)
+					}
+					a.Ty = t
+					sub.vars[qv.Name] = a
+				}
+				fc.assumptions["lemma (induction / definition, not machine-checked): "+name[:i]+"."+cl.Label+": "+cl.Text] = true
+				return boolV(sub.evalBool(q.Body))
+			}
+		}
 	}
 	// ghost function
 	if g, ok := fc.e.specs.Ghosts[name]; ok {
@@ -812,12 +836,49 @@ func (env *Env) callExpr(e *ECall) V {
 				sorts = append(sorts, cs[j].Sort)
 			}
 		}
+		// frame rule for objects allocated by this function: if every heap array the function reads differs from its
+		// entry version only by writes at refs this function allocated, then no object that existed at entry was
+		// modified, and for arguments that existed at entry (all allocation ids below ac0) the value is the entry value.
+		var alt []string
+		if nr := len(fc.readKeys(f)); len(f.Reads) > 0 && nr > 0 && !fc.dry {
+			changed, allEntry := false, true
+			for k := 0; k < nr; k++ {
+				p, ok := fc.peelFresh(flat[k])
+				if p != flat[k] {
+					changed = true
+				}
+				if !ok {
+					allEntry = false
+				}
+				alt = append(alt, p)
+			}
+			if changed && allEntry {
+				alt = append(alt, flat[nr:]...)
+			} else {
+				alt = nil
+			}
+		}
+		var guard []string
+		if alt != nil {
+			for i, a := range args {
+				pt := env.specType(f.Params[i].Ty)
+				if isSlice(pt) || isPointer(pt) {
+					guard = append(guard, sx("<", a.T[0], fc.entry.ac))
+				} else if len(fc.e.comps(pt)) > 0 && !isInteger(pt) && !isBoolean(pt) {
+					alt = nil // an argument whose allocation id is not visible: no frame rule
+					break
+				}
+			}
+		}
 		out := V{Ty: rt}
 		for _, c := range fc.e.comps(rt) {
 			fn := "|u:" + name + ":" + c.Suf + "|"
 			fc.declareFun(fn, sorts, c.Sort)
 			if len(flat) == 0 {
 				out.T = append(out.T, fn)
+			} else if alt != nil {
+				fc.assumptions["frame rule for heap-reading spec functions: writes to objects allocated by the function under verification do not change values computed from objects that existed at its entry"] = true
+				out.T = append(out.T, ite(and(guard...), sx(fn, alt...), sx(fn, flat...)))
 			} else {
 				out.T = append(out.T, sx(fn, flat...))
 			}
